@@ -263,18 +263,19 @@ def run(R):
                 continue
             garms, gw, grest = A.arms(g, sws[0])
             sig = [l["ty"] for l in g.locals[1:g.arg_count + 1]]
-            if "i64" in sig and len(garms) == 4:
+            if "i64" in sig and len(garms) >= 4 and set(INT_OPS) <= set(garms):
                 good = all(any(short(c.name).endswith("<impl i64>::" + INT_OPS[vn]) for c in g.calls if c.bb in garms[vn][1]) for vn in INT_OPS if vn in garms)
                 raw = [s for i, s in g.stmts() if s["rv"]["k"] == "binop" and s["rv"]["op"].split("With")[0] in ("Add", "Sub", "Mul", "Div", "Rem")
                        and s["rv"].get("lty") == "i64"]
-                if good and not raw and set(garms) == set(INT_OPS):
+                # (an operator added later has its own arm; `raw` covers it too: no unchecked integer operator anywhere in the closure)
+                if good and not raw:
                     int_ok = True
                     R.ok("C03.arith", "int", "Add/Subtract/Multiply/Divide -> checked_add/sub/mul/div", g.loc())
                 else:
                     R.violation("C03.arith", "int", "the INT arithmetic closure does not map each operator to its checked primitive "
                                                     "(raw integer operators: %d)" % len(raw), [g.loc()])
                     int_ok = True
-            if "f64" in sig and len(garms) == 4:
+            if "f64" in sig and len(garms) >= 4 and set(FLOAT_OPS) <= set(garms):
                 good = True
                 for vn, opn in FLOAT_OPS.items():
                     ops = [s["rv"]["op"] for i, s in g.stmts() if i in garms.get(vn, (None, set()))[1] and s["rv"]["k"] == "binop" and s["rv"].get("lty") == "f64"]
@@ -366,8 +367,11 @@ def run(R):
                     chars = list(reversed(chars))
                     key_ = chars[0] if len(chars) == 1 else tuple(chars[:2])
                     got[key_] = s_["rv"].get("variant")
-            if got == want:
-                R.ok("C03.lower", "transform_expression|BinaryOperator", "10 operator literals map to the like-named operators", tf.loc(tarms["BinaryOperator"][0]))
+            # an operator added later (a new literal mapped to a new engine operator) does not touch the meaning of the ten known ones
+            extra = {k: v for k, v in got.items() if k not in want}
+            if all(got.get(k) == v for k, v in want.items()) and not (set(extra.values()) & set(want.values())):
+                R.ok("C03.lower", "transform_expression|BinaryOperator", "10 operator literals map to the like-named operators%s"
+                     % (" (+ %d new: %s)" % (len(extra), sorted(extra.values())) if extra else ""), tf.loc(tarms["BinaryOperator"][0]))
             else:
                 diff = {str(k): (got.get(k), want.get(k)) for k in set(got) | set(want) if got.get(k) != want.get(k)}
                 R.violation("C03.lower", "transform_expression|BinaryOperator",
